@@ -1,4 +1,5 @@
 import MlodaVerif.Lemmas.SchedOrder
+import MlodaVerif.Lemmas.PlanOK
 /-! # C01 - every feature is computed once, and only after all of its inputs
 
 Theorems about the orchestrator model `Sched` for *every* plan with disjoint, non-empty step outputs (decided on every
@@ -70,10 +71,22 @@ theorem C01.gate_semantics (req outs finished running : List Nat) :
     (isStepDone outs finished = true ↔ ∀ u ∈ outs, u ∈ finished) := by
   simp [canRun, isStepDone]
 
+/-- trace acceptance is sound: what the driver accepts for a real run's event log *is* a behaviour of the model (its
+worker events are exactly the observed ones, each enabled where it occurred), so the theorems above apply to it -/
+theorem C01.accepts_sound (p : Plan) (obs : List Obs) (evs : List Ev) (h : acceptsGo p init obs = some evs) :
+    evs.filter isWorkerEv = obs.map Obs.toEv :=
+  acceptsGo_sound p obs init evs h
+
+/-- the executable structural checks the driver runs on every exported real plan imply the theorems' hypotheses -/
+theorem C01.plan_checks_sound (p : Plan) (parents : List (Nat × List Nat))
+    (h1 : disjointOutsB p = true) (h2 : nonemptyOutsB p = true) (h3 : parentsCoveredB p parents = true) :
+    DisjointOuts p ∧ NonemptyOuts p ∧ ParentsCovered p (parentsOf parents) :=
+  ⟨disjointOutsB_sound h1, nonemptyOutsB_sound h2, parentsCoveredB_sound h3⟩
+
 /-- non-vacuity: a diamond plan (0 → 1, 0 → 2, {1,2} → 3) with disjoint non-empty outs; one schedule in which the two
 middle steps overlap runs every step exactly once and returns -/
 example :
-    let p : Plan := [⟨[10], [], .fg⟩, ⟨[11], [10], .fg⟩, ⟨[12], [10], .fg⟩, ⟨[13], [11, 12], .fg⟩]
+    let p : Plan := [{ outs := [10], req := [] }, { outs := [11], req := [10] }, { outs := [12], req := [10] }, { outs := [13], req := [11, 12] }]
     let evs := [Ev.loopHead, .scan 0, .begin 0, .finish 0, .scan 1, .scan 0, .scan 1, .scan 2, .begin 2, .begin 1,
                 .finish 1, .finish 2, .scan 3, .scan 1, .scan 2, .scan 3, .begin 3, .finish 3, .scan 3, .loopHead]
     disjointOutsB p = true ∧ nonemptyOutsB p = true ∧ (run p init evs).returned = true ∧
